@@ -61,6 +61,16 @@ func (x *Exec) callValue(st *State, fr *Frame, call *ssa.CallCommon, fnv *Val, a
 		return
 	}
 	if b, ok := call.Value.(*ssa.Builtin); ok {
+		if b.Name() == "append" && x.curCon != nil && x.curCon.has("forkappend") && args[0].K == kSlice && args[1].K != kNil {
+			// one path per outcome (in place / reallocated) instead of an ite of both in every term
+			fits := Le(Add(args[0].Len, x.lenOf(args[1])), args[0].Cap)
+			x.fork2(st, fits, "append fits", func(s *State) {
+				cont(s, x.builtin(s, fr, b, call, args, pos))
+			}, func(s *State) {
+				cont(s, x.builtin(s, fr, b, call, args, pos))
+			})
+			return
+		}
 		cont(st, x.builtin(st, fr, b, call, args, pos))
 		return
 	}
@@ -331,6 +341,10 @@ func (x *Exec) applyContract(st *State, fr *Frame, c *Contract, sig *types.Signa
 	// bind results
 	sctx.bindResults(sig, res)
 	sctx.old = &old
+	if !c.Extern && !c.has("trusted") {
+		// proved contracts speak about the callee's own calls; assumed ones are written for the caller's record
+		sctx.calleeGhost = map[string]*Term{}
+	}
 	for _, cl := range c.of("ensures", -1) {
 		x.assume(st, sctx.evalBool(cl), "callee-post "+cname+"."+cl.ID)
 	}
